@@ -340,9 +340,30 @@ func (w *World) ownershipObligations() []*Obligation {
 	}
 	// call sites that must lie inside a critical section
 	for _, ch := range w.db.CallHolds {
-		fn := w.funcs[ch.Func]
+		root := w.funcs[ch.Func]
 		found := 0
-		if fn != nil {
+		// the function itself and the package functions it calls (a helper that does the call on its behalf)
+		var reach []*ssa.Function
+		seenFn := map[*ssa.Function]bool{}
+		var walk func(f *ssa.Function)
+		walk = func(f *ssa.Function) {
+			if f == nil || seenFn[f] || !w.inPkg(f) || len(f.Blocks) == 0 {
+				return
+			}
+			seenFn[f] = true
+			reach = append(reach, f)
+			for _, b := range f.Blocks {
+				for _, in := range b.Instrs {
+					if call, ok := in.(*ssa.Call); ok {
+						if sf := call.Call.StaticCallee(); sf != nil {
+							walk(sf)
+						}
+					}
+				}
+			}
+		}
+		walk(root)
+		for _, fn := range reach {
 			for _, b := range fn.Blocks {
 				for _, in := range b.Instrs {
 					call, ok := in.(*ssa.Call)
